@@ -77,12 +77,24 @@ Inductive rtree :=
 | RUnOp (op : T -> T) (a : rtree)
 | RSelect (w : list sel) (l : list rtree)
 | RFilter (pred : T -> bool) (l : list rtree)
+| RFilterBy (pred : nat -> T -> bool) (l : list rtree)
 | RSubst (expand : T -> expansion) (append : bool) (depth : nat) (r : rtree).
 
 (* the values of a roll's outcomes in order; None is a tombstone (dropped outcome) *)
 Definition rollv := list (option T).
 Definition live (r : rollv) : list T := flat_map (fun o => match o with Some v => [v] | None => [] end) r.
 Definition tsumv (l : list T) : T := fold_right addT zeroT l.
+(* provenance: the elements of the lists f x (x in l, in order), each paired with the position of x in l
+   (positions counted from k) *)
+Fixpoint tagged_from {A B} (f : A -> list B) (k : nat) (l : list A) : list (nat * B) :=
+  match l with
+  | [] => []
+  | x :: t => map (pair k) (f x) ++ tagged_from f (Datatypes.S k) t
+  end.
+(* FilterRoller with a predicate that looks at the provenance of an outcome: pred i v decides the live
+   value v of the i-th source roll (0-based); rejected outcomes become tombstones *)
+Definition filter_by (pred : nat -> T -> bool) (rs : list rollv) : rollv :=
+  map (fun kv => if pred (fst kv) (snd kv) then Some (snd kv) else None) (tagged_from live 0%nat rs).
 (* NarySumOpRoller: a single live outcome is used as is, otherwise the sum of the live outcomes *)
 Definition summed (r : rollv) : T :=
   match r with
@@ -122,6 +134,8 @@ Fixpoint roll_v (r : rtree) : tree rollv :=
   | RFilter pred l =>
       bind (seq_tree (map roll_v l))
            (fun rs => Ret (map (fun v => if pred v then Some v else None) (flat_map live rs)))
+  | RFilterBy pred l =>
+      bind (seq_tree (map roll_v l)) (fun rs => Ret (filter_by pred rs))
   | RSubst expand append depth r' =>
       let src := roll_v r' in
       (* _expanded_roll_outcomes(roll, depth): [left] levels of substitution remain *)
